@@ -71,11 +71,48 @@ def parseRule (drBt : Bool) (j : Json) : E (Option RuleCfg) := do
     let routes ← (← arr j "routes").mapM fun r => do
       let pps ← (arrD r "pp").mapM fun p => do pure (bytesOf (← str p "name"), ← parseTM '/' p)
       pure (bytesOf (← str r "path"), ({ scheme := strD j "scheme" "", methods, hosts, pps, esh } : RouteM))
-    pure (some { id := ← str j "id", bt, esh, routes })
+    pure (some { id := ← str j "id", bt, esh, routes, ver := natD j "ver" 0 })
 
 def splitTarget (t : String) : String × String :=
   let cs := t.toList
   (String.ofList (cs.takeWhile (· ≠ '?')), String.ofList ((cs.dropWhile (· ≠ '?')).drop 1))
+
+/-- answer to one lookup; second component: 0 = no rule, 1 = default rule, 2 = regular rule -/
+def answer (s : Repo) (hasDr : Bool) (q : ReqView) : Json × Nat :=
+  let sv := s.serve hasDr q
+  match sv.rule, sv.exec with
+  | some (src, rid), some ex =>
+    let kind := if src == "config" then 1 else 2
+    match ex with
+    | .argument => (Json.mkObj [("rule", jstr (src ++ "/" ++ rid)), ("exec", jstr "argument")], kind)
+    | .ok caps =>
+      let ver := match s.findRule hasDr q with
+        | .rule v _ => v.ver
+        | _ => 0
+      let caps' := sortPairs (caps.map fun kv => (outStr kv.1, outStr kv.2))
+      (Json.mkObj ([("rule", jstr (src ++ "/" ++ rid)), ("exec", jstr "ok"),
+        ("caps", jarr (caps'.map fun kv => jstrs [kv.1, kv.2]))]
+        ++ (if ver > 0 then [("ver", jstr (toString ver))] else [])), kind)
+  | _, _ => (Json.mkObj [("rule", Json.null), ("err", jstr "norule")], 0)
+
+/-- the request view of a lookup operation (`none`: the request line is not accepted) -/
+def viewOf (op : Json) : E (Option ReqView) := do
+  let (received, _) := splitTarget (bytesOf (← str op "target"))
+  -- the request context spells the received path with the octets a path may not contain percent-encoded
+  let rawPath := receivedPath received
+  match (pathUnescape received).bind fun _ => pathUnescape rawPath with
+  | none => pure none
+  | some path =>
+    pure (some { method := ← str op "method", scheme := strD op "scheme" "http", host := bytesOf (← str op "host"),
+                 rawPath, path })
+
+def changeOf (drBt : Bool) (k : String) (op : Json) : E (Option RepoOp) := do
+  let src ← str op "src"
+  if k == "del" then pure (some (RepoOp.del src)) else
+  let rules ← (← arr op "rules").mapM (parseRule drBt)
+  if rules.any (·.isNone) then pure none else
+  let rs := rules.filterMap id
+  pure (some (if k == "add" then RepoOp.add src rs else RepoOp.upd src rs))
 
 def run (c : Json) : E Json := do
   let hasDr := boolD c "dr" false
@@ -88,33 +125,16 @@ def run (c : Json) : E Json := do
   for op in ← arr c "ops" do
     let k ← str op "op"
     if k == "find" then
-      let (received, _) := splitTarget (bytesOf (← str op "target"))
-      -- the request context spells the received path with the octets a path may not contain percent-encoded
-      let rawPath := receivedPath received
-      match (pathUnescape received).bind fun _ => pathUnescape rawPath with
+      match ← viewOf op with
       | none => out := out ++ [Json.mkObj [("badrequest", Json.bool true)]]
-      | some path =>
-        let q : ReqView := { method := ← str op "method", scheme := strD op "scheme" "http", host := bytesOf (← str op "host"), rawPath, path }
+      | some q =>
         if (cands s.index (tokenize (lookupPath q)) []).length ≥ 2 then multi := multi + 1
-        let sv := s.serve hasDr q
-        match sv.rule, sv.exec with
-        | some (src, rid), some ex =>
-          if src == "config" then dflt := dflt + 1 else matched := matched + 1
-          match ex with
-          | .argument => out := out ++ [Json.mkObj [("rule", jstr (src ++ "/" ++ rid)), ("exec", jstr "argument")]]
-          | .ok caps =>
-            out := out ++ [Json.mkObj [("rule", jstr (src ++ "/" ++ rid)), ("exec", jstr "ok"),
-              ("caps", jarr ((sortPairs (caps.map fun kv => (outStr kv.1, outStr kv.2))).map fun kv => jstrs [kv.1, kv.2]))]]
-        | _, _ => out := out ++ [Json.mkObj [("rule", Json.null), ("err", jstr "norule")]]
+        let (j, kind) := answer s hasDr q
+        if kind == 1 then dflt := dflt + 1
+        if kind == 2 then matched := matched + 1
+        out := out ++ [j]
     else
-      let src ← str op "src"
-      let op ← (do
-        if k == "del" then pure (some (RepoOp.del src)) else
-        let rules ← (← arr op "rules").mapM (parseRule drBt)
-        if rules.any (·.isNone) then pure none else
-        let rs := rules.filterMap id
-        pure (some (if k == "add" then RepoOp.add src rs else RepoOp.upd src rs)))
-      match op with
+      match ← changeOf drBt k op with
       | none => out := out ++ [jstr "configuration"]
       | some o =>
         out := out ++ [jstr (if (s.apply o).isSome then "ok" else "internal")]
